@@ -629,7 +629,7 @@ class ConcModel(Comp):
         r = parse_out(out)
         if r is None:
             return "IMPL:" + out
-        if r["verdict"] != "ok":
+        if r["verdict"] != "ok" or r["glob"] != "ok":
             return "IMPL:" + out
         # the dangling= field of the driver is informational (arena of record pointers reallocated); a use of a dangling
         # record would show as a lost error record, i.e. as a DIFF above
